@@ -498,16 +498,23 @@ func (g *declGen) object(fs []string, intField string, item *ItemModel) D {
 		if g.t.Chance("decl.collide.argedit.members", 1, 4) {
 			// ... or as two members of one object argument
 			tn2 := "tplarg2"
-			g.templates[tn2] = D{"object": D{"a": D{"array": []interface{}{D{"xpath": fs[0]}, D{"const": "z9"}}}, "b": D{"array": []interface{}{D{"xpath": fs[0]}, D{"const": "z9"}}}}}
+			member := func() D { return D{"array": []interface{}{D{"xpath": fs[0]}, D{"const": "z9"}}} }
 			if g.t.Chance("decl.collide.argedit.members.map", 1, 3) {
 				// ... whose values are containers of another Go type than the usual two (a javascript Map
 				// is exported as a slice of pairs)
-				member := func() D {
+				member = func() D {
 					return cf("javascript", D{"const": "new Map([['k', v], ['l', 'z9']])"}, D{"const": "v"}, D{"xpath": fs[0]})
 				}
-				g.templates[tn2] = D{"object": D{"a": member(), "b": member()}}
 			}
-			js = cf("javascript", D{"const": "o.a.push('extra'); o.a.length + '/' + o.b.length"}, D{"const": "o"}, D{"template": tn2})
+			g.templates[tn2] = D{"object": D{"a": member(), "b": member()}}
+			src3 := "o.a.push('extra'); o.a.length + '/' + o.b.length"
+			if g.t.Bool("decl.collide.argedit.members.three") {
+				// ... or three: the first evaluation fills the cache, the second and the third are both
+				// served from it - and still have to be two values
+				g.templates[tn2] = D{"object": D{"a": member(), "b": member(), "c": member()}}
+				src3 = "o.b.push('extra'); o.a.length + '/' + o.b.length + '/' + o.c.length"
+			}
+			js = cf("javascript", D{"const": src3}, D{"const": "o"}, D{"template": tn2})
 		}
 		js["keep_empty_or_null"] = true
 		if g.t.Bool("decl.collide.argedit.order") {
